@@ -6,6 +6,7 @@ package conformance
 
 import (
 	"bytes"
+	"encoding/gob"
 	"encoding/binary"
 	"io"
 	"math/rand"
@@ -239,5 +240,26 @@ func TestGetKDCsKeys(t *testing.T) {
 				}
 			}
 		}
+	}
+}
+
+// http.spec assumes that gob restores an empty, non-nil attribute map as a non-nil map (the
+// identity of a fresh session has no attributes yet; SetAttribute would panic on a nil map).
+func TestGobKeepsEmptyMapsNonNil(t *testing.T) {
+	type rec struct {
+		Name       string
+		Attributes map[string]interface{}
+		Groups     map[string]bool
+	}
+	var b bytes.Buffer
+	if err := gob.NewEncoder(&b).Encode(rec{Attributes: map[string]interface{}{}, Groups: map[string]bool{}}); err != nil {
+		t.Fatal(err)
+	}
+	var out rec
+	if err := gob.NewDecoder(&b).Decode(&out); err != nil {
+		t.Fatal(err)
+	}
+	if out.Attributes == nil || out.Groups == nil {
+		t.Fatalf("empty maps came back nil: %v %v", out.Attributes == nil, out.Groups == nil)
 	}
 }
